@@ -78,6 +78,12 @@ def state_case(rep, spec, index):
             det[basis] = {"ref": [float(ref[0]), float(ref[1])], "residual": res}
             ok_any = ok_any or (res[0] <= tol[0] and res[1] <= tol[1])
         rep.require("the selected activity model is honoured on both sides of the membrane", ok_any, case, dict(det, fluxes=j, ystar=ystar))
+    # the public inner routine, called directly the way the solver calls it, at the permeate composition the solver stopped at
+    if inner:
+        ystar_c = inner[-1][0]
+        st_d, j_d = _guard(lambda: pv.get_partial_fluxes_from_permeate_composition(fc.p1, fc.p2, ystar_c, x, T, tp, pp, model))
+        rep.require("public driving-force routine called directly at the converged permeate composition returns the standalone fluxes (bitwise)",
+                    st_d == "ok" and pair(j_d) == j, case, {"direct": pair(j_d) if st_d == "ok" else repr(j_d), "standalone": j})
     # the same object asked about the same state with the OTHER model in between: both answers must equal those of
     # fresh objects (the selected activity model is honoured, whatever was asked before)
     from pyvaporation.pervaporation import Pervaporation
